@@ -1,5 +1,4 @@
--- imports HeaderCookie_proof.lean (Probe.HC_all)
-import Probe.HC_all
+import HeaderCookie_proof
 /-! Proof probe for C06: query parameters never deliver a different value, apart from W1 (form, explode=false,
     `[""]` → `[]`) and W2 (pipeDelimited, explode=false, `[]` → `[""]`). Object field names are distinct (they are the
     property names of one schema). -/
